@@ -191,6 +191,11 @@ def runtime_kinds():
         {"name": "BoolValue", "syntax": p3, "fields": [field("value", 1, "singular", s("bool"))]},
         {"name": "DoubleValue", "syntax": p3, "fields": [field("value", 1, "singular", s("double"))]},
         {"name": "UInt32Value", "syntax": p3, "fields": [field("value", 1, "singular", s("uint32"))]},
+        {"name": "UInt64Value", "syntax": p3, "fields": [field("value", 1, "singular", s("uint64"))]},
+        {"name": "Int32Value", "syntax": p3, "fields": [field("value", 1, "singular", s("int32"))]},
+        {"name": "FloatValue", "syntax": p3, "fields": [field("value", 1, "singular", s("float"))]},
+        {"name": "BytesBValue", "syntax": p3, "fields": [field("value", 1, "singular", s("bytes"))]},
+        {"name": "Empty", "syntax": p3, "fields": []},
         {"name": "NzDoubleValue", "syntax": p3, "fields": [field("value", 1, "singular", s("double"))]},
         {"name": "NzFloatValue", "syntax": p3, "fields": [field("value", 1, "singular", s("float"))]},
         {"name": "KWrap", "syntax": p3, "fields": [
@@ -202,7 +207,8 @@ def runtime_kinds():
     return {"name": "pbk", "syntax": p3, "package": "", "enums": [], "messages": msgs, "runtime": True,
             "rust": {"KLeaf": "@pbk::KLeaf", "KStr": "@pbk::KStr", "KPacked": "@pbk::KPacked", "KBtree": "@pbk::KBtree", "KGroup": "@pbk::KGroup",
                      "KWrap": "@pbk::KWrap", "StringValue": None, "BytesValue": None, "Int64Value": None, "BoolValue": None,
-                     "DoubleValue": None, "UInt32Value": None, "NzDoubleValue": None, "NzFloatValue": None}}
+                     "DoubleValue": None, "UInt32Value": None, "UInt64Value": None, "Int32Value": None, "FloatValue": None, "BytesBValue": None, "Empty": None,
+                     "NzDoubleValue": None, "NzFloatValue": None}}
 
 
 def for_tla(sch):
